@@ -558,6 +558,68 @@ SLOTS = {0: "qasm3 gate", 1: "qasm3 circuit", 2: "qasm2 gate", 3: "qasm2 circuit
          8: "qiskit gate", 9: "qiskit circuit", 10: "cirq", 11: "sympy gate", 12: "sympy circuit"}
 
 
+def _export_view(qc, fw, mode):
+    """Comparable view of an export (text for QASM, op list for qiskit)."""
+    e = qc.export(mode, fw)
+    if fw == "qasm":
+        return e
+    if fw == "qiskit":
+        if mode == "gate":
+            e = e.definition
+        return [(i.operation.name, tuple(e.find_bit(q).index for q in i.qubits)) for i in e.data]
+    return str(e)
+
+
+def export_after_composition(rng, n):
+    """Export an operand, build a composed circuit from it (+, +=, repeat, append_circuit),
+    export the result, and compare with the export of an equal circuit built from scratch."""
+    from qlasskit.qcircuit import QCircuit
+    cases, fails = 0, []
+
+    def rand_circ(nq, ng):
+        qc = QCircuit(nq)
+        for _ in range(ng):
+            k = rng.choice(["x", "cx", "ccx", "h", "z"])
+            qs = rng.sample(range(nq), {"x": 1, "h": 1, "z": 1, "cx": 2, "ccx": 3}[k])
+            getattr(qc, k)(*qs)
+        return qc
+
+    def rebuild(qc):
+        f = QCircuit(qc.num_qubits)
+        for g, w, p in qc.gates:
+            f.append(type(g)() if not hasattr(g, "n_controls") or type(g).__name__ in ("CX", "CCX", "CZ", "CP") else g, list(w), p)
+        return f
+
+    for _ in range(n):
+        nq = rng.randint(3, 4)
+        a, b = rand_circ(nq, rng.randint(1, 4)), rand_circ(nq, rng.randint(1, 4))
+        how = rng.choice(["add", "iadd", "repeat", "append_circuit"])
+        for fw, mode in (("qasm", "circuit"), ("qasm", "gate"), ("qiskit", "circuit"), ("qiskit", "gate")):
+            cases += 1
+            try:
+                _export_view(a, fw, mode)  # earlier export of the operand
+                if how == "add":
+                    c = a + b
+                elif how == "iadd":
+                    c = a.copy()
+                    _export_view(c, fw, mode)
+                    c += b
+                elif how == "repeat":
+                    c = a.repeat(3)
+                else:
+                    c = a.copy()
+                    _export_view(c, fw, mode)
+                    c.append_circuit(b, list(range(nq)))
+                got = _export_view(c, fw, mode)
+                want = _export_view(rebuild(c), fw, mode)
+                if got != want:
+                    fails.append(dict(how=how, framework=fw, mode=mode, gates=[(type(g).__name__, list(w)) for g, w, p in c.gates],
+                                      exported=str(got)[:400], fresh=str(want)[:400]))
+            except Exception as e:  # noqa
+                fails.append(dict(how=how, framework=fw, mode=mode, error=f"{type(e).__name__}: {e}"[:200]))
+    return cases, fails
+
+
 def run(tier, seed):
     chk = C.Check(PID, tier, seed, level="proof")
     rng = random.Random(seed)
@@ -664,6 +726,11 @@ def run(tier, seed):
     for e in ser_err[:3]:
         chk.broken("exported object cannot be read back", e)
 
+    # exports must not depend on earlier exports of the operands (export, compose, export again)
+    comp_cases, comp_fail = export_after_composition(random.Random(seed + 7), 12 if tier == "quick" else 120)
+    for f in comp_fail[:5]:
+        chk.violation("the export of a composed circuit differs from the export of an equal, freshly built circuit", f)
+
     worst = max(loss_all, default=None)
     loss_all = [x[0] for x in loss_all]
     lossy = [x for x in loss_all if x > 0]
@@ -674,7 +741,7 @@ def run(tier, seed):
              "(aliases, unnamed qubits, renames, order != index order, names colliding with the fallback names), the empty register, "
              "compiled functions with aliased maps; x {QASM 3, QASM 2} x {gate, circuit}, qiskit {gate, circuit}, cirq (gate + circuit), "
              "sympy {gate, circuit}; evaluations = circuits x 13 compared artefacts",
-        distribution=dist, numeric_unitary_checks=n_num, model_files=len(files),
+        distribution=dist, numeric_unitary_checks=n_num, model_files=len(files), export_after_composition_cases=comp_cases,
         defects_seen={d: len(l) for d, l in seen.items()},
         unpatched_behaviour_without_property_failure={d: len(l) for d, l in silent.items()},
         qasm_phase_precision=dict(gates_with_printed_phase=len(loss_all), printed_value_differs=len(lossy),
